@@ -44,7 +44,7 @@ HasAt(w, p, lit) == p + Len(lit) - 1 <= Len(w) /\ SubSeq(w, p, p + Len(lit) - 1)
 (* numeric character references: "&#" digits, an optional ";" (the three the explored alphabets can spell: ")", ".", ":") *)
 RECURSIVE DigitsEnd(_, _)
 DigitsEnd(w, q) == IF q <= Len(w) /\ IsDigit(w[q]) THEN DigitsEnd(w, q + 1) ELSE q      \* first position behind the digits
-CodeChar(ds) == CASE ds = <<"4", "1">> -> ")" [] ds = <<"4", "6">> -> "." [] ds = <<"5", "8">> -> ":" [] OTHER -> "?"
+CodeChar(ds) == CASE ds = <<"4", "1">> -> ")" [] ds = <<"4", "6">> -> "." [] ds = <<"5", "8">> -> ":" [] ds = <<"6", "5">> -> "A" [] OTHER -> "?"
 RECURSIVE UnescFrom(_, _)
 UnescFrom(w, p) ==
   IF p > Len(w) THEN <<>>
@@ -63,7 +63,10 @@ ReplFrom(w, p, from, to) ==
 (* a word's first rune keeps its case in the non-normalizing mode: "Https://" loses its "s" too, so that
    Match(Normalize(in)) reads the scheme Match(in) reads (fix: normalizeToken) *)
 LitHttpsCap == <<"H">> \o Tail(LitHttps)
-Flush(obuf) == LET u == UnescFrom(obuf, 1)
+(* a character reference may decode to an upper-case letter: the word is lower-cased again behind the unescape (all of it when
+   normalizing, all but its first rune otherwise, as the rune loop does) -- fix *)
+Relower(w, norm) == [i \in 1..Len(w) |-> IF i = 1 /\ ~norm THEN w[i] ELSE Lower(w[i])]
+FlushN(obuf, norm) == LET u == Relower(UnescFrom(obuf, 1), norm)
                    v == IF HasAt(u, 1, LitHttpsCap) THEN <<"H">> \o Tail(LitHttp) \o SubSeq(u, Len(LitHttps) + 1, Len(u)) ELSE u
                IN ReplFrom(v, 1, LitHttps, LitHttp)
 
@@ -129,7 +132,7 @@ Step(s, c, norm) ==
   IF c = NL THEN
      IF s.obuf # <<>> /\ Last(s.obuf) = "-"
      THEN [s EXCEPT !.obuf = Front(@), !.dE = TRUE, !.dl = @ + 1] \* hyphen before the break: strip, defer, line NOT advanced
-     ELSE LET lb == IF s.obuf # <<>> THEN Append(s.lb, Flush(s.obuf)) ELSE s.lb
+     ELSE LET lb == IF s.obuf # <<>> THEN Append(s.lb, FlushN(s.obuf, norm)) ELSE s.lb
               s1 == IF lb # <<>> THEN EmitLine([s EXCEPT !.lb = <<>>, !.obuf = <<>>], lb, s.line, norm) ELSE s
               ln == s.line + s.dl                                  \* the pending word ended with its line: settle
               s2 == IF norm THEN s1 ELSE [s1 EXCEPT !.toks = Append(@, [w |-> EOLW, l |-> ln])]
@@ -138,7 +141,7 @@ Step(s, c, norm) ==
      IF IsStart(c) THEN [s EXCEPT !.obuf = <<IF norm THEN Lower(c) ELSE c>>] ELSE s
   ELSE IF IsSpace(c) THEN
      IF s.dE THEN s                                                \* blanks after "-\n" are skipped
-     ELSE LET lb == Append(s.lb, Flush(s.obuf)) IN
+     ELSE LET lb == Append(s.lb, FlushN(s.obuf, norm)) IN
           IF s.dW
           THEN [EmitLine([s EXCEPT !.lb = <<>>, !.obuf = <<>>], lb, s.line, norm)
                   EXCEPT !.dW = FALSE, !.line = s.line + s.dl, !.dl = 0]   \* joined word credited to the line it began on
@@ -147,7 +150,7 @@ Step(s, c, norm) ==
        IN [s1 EXCEPT !.obuf = @ \o MapLower(c)]
 
 Finish(s, norm) ==
-  LET lb == IF s.obuf # <<>> THEN Append(s.lb, Flush(s.obuf)) ELSE s.lb
+  LET lb == IF s.obuf # <<>> THEN Append(s.lb, FlushN(s.obuf, norm)) ELSE s.lb
   IN IF lb # <<>> THEN EmitLine([s EXCEPT !.lb = <<>>, !.obuf = <<>>], lb, s.line, norm) ELSE s
 
 RECURSIVE Fold(_, _, _, _)
